@@ -231,6 +231,7 @@ func (ex *Exec) callStatic(st *State, fr *Frame, fn *ssa.Function, args []Val, b
 	}
 	inlineReq := fr.contract != nil && (fr.contract.Inline[short] || fr.contract.Inline[shortFn(fn)])
 	if ct := ex.db.Contracts[key]; ct != nil && !inlineReq {
+		ex.pendingBinds, ex.pendingFn = binds, fn
 		k(st, ex.applyContract(st, fr, ct, key, args, sig, pos))
 		return
 	}
@@ -302,6 +303,20 @@ func (ex *Exec) applyContract(st *State, fr *Frame, ct *Contract, key string, ar
 		}
 	}
 	vars := ex.bindParams(ct, fnParams, args)
+	if ex.pendingFn != nil && ex.pendingFn.String() == key {
+		// closure with a contract: captured variables by name
+		for i, fv := range ex.pendingFn.FreeVars {
+			if i < len(ex.pendingBinds) {
+				b := ex.pendingBinds[i]
+				if b.Kind == VCellPtr {
+					vars[fv.Name()] = st.cells[b.Cell]
+				} else {
+					vars[fv.Name()] = b
+				}
+			}
+		}
+	}
+	ex.pendingBinds, ex.pendingFn = nil, nil
 	old := st.snapshot()
 	env := &Env{ex: ex, st: st, old: old, vars: vars, fr: fr, pkg: ex.pkgOfKey(key), calleeCtx: true}
 	for _, r := range ct.Requires {
@@ -681,6 +696,13 @@ func (ex *Exec) callMods(c *ssa.CallCommon, ms *ModSet, depth int) {
 		return
 	}
 	key, fn := ex.calleeKey(nil, c)
+	if fn == nil && !c.IsInvoke() {
+		// call through a local variable that only ever holds one closure
+		if f := resolveClosureVar(c.Value); f != nil {
+			fn = f
+			key = f.String()
+		}
+	}
 	if _, ok := libModels[key]; ok {
 		for _, h := range libModelMods[key] {
 			ms.write(h[0], h[1])
@@ -690,13 +712,16 @@ func (ex *Exec) callMods(c *ssa.CallCommon, ms *ModSet, depth int) {
 	if ct := ex.db.Contracts[key]; ct != nil {
 		if ct.HasMod || ct.Trusted {
 			ex.modsOfClauses(ct, ms)
+			if fn != nil && closureStoresFreeVars(fn) {
+				ms.cellsAll = true
+			}
 			return
 		}
 	}
 	if fn != nil && inRepo(fn) && len(fn.Blocks) > 0 {
 		sub := ex.modSetOf(fn, depth+1)
 		ms.merge(sub)
-		if len(fn.FreeVars) > 0 {
+		if closureStoresFreeVars(fn) {
 			ms.cellsAll = true
 		}
 		return
@@ -1316,4 +1341,53 @@ func (ex *Exec) renderFormat(st *State, format string, args []Val) (Term, bool) 
 		t = BCat(parts[i], t)
 	}
 	return t, true
+}
+
+// resolveClosureVar: v is a load of a local that is assigned exactly once, a closure.
+func resolveClosureVar(v ssa.Value) *ssa.Function {
+	u, ok := v.(*ssa.UnOp)
+	if !ok || u.Op != token.MUL {
+		return nil
+	}
+	a, ok := u.X.(*ssa.Alloc)
+	if !ok || a.Referrers() == nil {
+		return nil
+	}
+	var fn *ssa.Function
+	n := 0
+	for _, r := range *a.Referrers() {
+		if st, ok := r.(*ssa.Store); ok && st.Addr == a {
+			n++
+			if mc, ok := st.Val.(*ssa.MakeClosure); ok {
+				fn, _ = mc.Fn.(*ssa.Function)
+			} else if f, ok := st.Val.(*ssa.Function); ok {
+				fn = f
+			} else {
+				return nil
+			}
+		}
+	}
+	if n == 1 {
+		return fn
+	}
+	return nil
+}
+
+// closureStoresFreeVars: does the closure (or closures nested in it) assign a captured variable?
+func closureStoresFreeVars(fn *ssa.Function) bool {
+	for _, b := range fn.Blocks {
+		for _, ins := range b.Instrs {
+			if st, ok := ins.(*ssa.Store); ok {
+				if _, ok := st.Addr.(*ssa.FreeVar); ok {
+					return true
+				}
+			}
+		}
+	}
+	for _, af := range fn.AnonFuncs {
+		if closureStoresFreeVars(af) {
+			return true
+		}
+	}
+	return false
 }
